@@ -537,17 +537,17 @@ Proof.
 Qed.
 
 (* ------------------------------------------------------------------ steps and histories *)
-Lemma admit_nodup T Q w : admit T Q w = true -> NoDup (map a_path (t_arts T)).
+Lemma admits_nodup T Q w : admits T Q w = true -> NoDup (map a_path (t_arts T)).
 Proof.
-  unfold admit. intros H. repeat (apply andb_prop in H as [H ?]). now apply nodupb_NoDup.
+  unfold admits. intros H. repeat (apply andb_prop in H as [H ?]). now apply nodupb_NoDup.
 Qed.
 
 Lemma apply_spec v T Q F w w' r :
   apply v T Q F w = (w', r) -> Inv v w ->
-  Inv v w' /\ (admit T Q w = false -> w' = w /\ r = RErr) /\ (admit T Q w = true -> apply_post v T w w' r).
+  Inv v w' /\ (admits T Q w = false -> w' = w /\ r = RErr) /\ (admits T Q w = true -> apply_post v T w w' r).
 Proof.
-  unfold apply. intros H Hi. destruct (admit T Q w) eqn:Ea.
-  - pose proof (apply_flow_spec _ _ _ _ _ _ H (admit_nodup _ _ _ Ea)) as Hp.
+  unfold apply. intros H Hi. destruct (admits T Q w) eqn:Ea.
+  - pose proof (apply_flow_spec _ _ _ _ _ _ H (admits_nodup _ _ _ Ea)) as Hp.
     splits; [apply Hp|discriminate|auto].
   - inv H. splits; auto. discriminate.
 Qed.
@@ -588,7 +588,7 @@ Proof.
   intros H Hi Hv. destruct o as [T Q F|F| |p f]; simpl in H.
   - destruct (apply v T Q F w) as [w1 r1] eqn:Ea. inv H.
     destruct (apply_spec _ _ _ _ _ _ _ Ea Hi) as (I1 & I2 & I3). split; [assumption|].
-    destruct (admit T Q w) eqn:Ead.
+    destruct (admits T Q w) eqn:Ead.
     + destruct (I3 eq_refl) as (P1 & P2 & P3 & P4 & P5).
       destruct r; try discriminate.
       * destruct (P2 eq_refl) as (Q1 & _). rewrite mon_new_ok; [discriminate|assumption].
@@ -639,7 +639,7 @@ Qed.
 
 Theorem crash_then_rollback_restores v T Q F w w1 r1 b gi :
   v_mode_fix v = true ->
-  apply v T Q F w = (w1, r1) -> admit T Q w = true ->
+  apply v T Q F w = (w1, r1) -> admits T Q w = true ->
   g_base w1 = Some (true, b, gi) ->
   forall ops, rb_only ops ->
   forall w' r m, In (w', (r, m)) (run v w1 ops) -> r = RRbOk ->
@@ -647,7 +647,7 @@ Theorem crash_then_rollback_restores v T Q F w w1 r1 b gi :
 Proof.
   intros Hv Ha Had Hg ops Hrb w' r m Hin Hr a Hia.
   unfold apply in Ha. rewrite Had in Ha.
-  destruct (apply_flow_spec _ _ _ _ _ _ Ha (admit_nodup _ _ _ Had)) as (P1 & _ & _ & _ & P5).
+  destruct (apply_flow_spec _ _ _ _ _ _ Ha (admits_nodup _ _ _ Had)) as (P1 & _ & _ & _ & P5).
   pose proof (P5 _ _ Hg) as ->.
   eapply (rb_only_restores v Hv ops w1 _ gi Hrb P1 Hg w' r m Hin Hr).
   unfold base_of. apply in_map_iff. exists a. split; [reflexivity|assumption].
@@ -660,8 +660,8 @@ Lemma no_mixed_success v T Q F w w' :
                                   fs w' (a_path a) = Some (Reg (a_content a) mm)) /\
   cur w' = t_to T /\ option_map j_phase (jr w') = Some PCompleted.
 Proof.
-  intros H. unfold apply in H. destruct (admit T Q w) eqn:Ea; [|discriminate].
-  destruct (apply_flow_spec _ _ _ _ _ _ H (admit_nodup _ _ _ Ea)) as (_ & P2 & _).
+  intros H. unfold apply in H. destruct (admits T Q w) eqn:Ea; [|discriminate].
+  destruct (apply_flow_spec _ _ _ _ _ _ H (admits_nodup _ _ _ Ea)) as (_ & P2 & _).
   destruct (P2 eq_refl) as (Q1 & Q2 & _ & Q4). auto.
 Qed.
 
@@ -670,8 +670,8 @@ Lemma failed_apply_restored v T Q F w w' :
   apply v T Q F w = (w', RErrRolledBack) ->
   forall a, In a (t_arts T) -> fs w' (a_path a) = fs w (a_path a).
 Proof.
-  intros Hv H a Ha. unfold apply in H. destruct (admit T Q w) eqn:Ea; [|discriminate].
-  destruct (apply_flow_spec _ _ _ _ _ _ H (admit_nodup _ _ _ Ea)) as (_ & _ & P3 & _).
+  intros Hv H a Ha. unfold apply in H. destruct (admits T Q w) eqn:Ea; [|discriminate].
+  destruct (apply_flow_spec _ _ _ _ _ _ H (admits_nodup _ _ _ Ea)) as (_ & _ & P3 & _).
   destruct (P3 eq_refl) as (_ & Q2 & _).
   rewrite (Q2 (a_path a) (fs w (a_path a))); [now apply normf_fixed|].
   unfold base_of. apply in_map_iff. exists a. auto.
@@ -680,8 +680,8 @@ Qed.
 Lemma early_error_untouched v T Q F w w' :
   apply v T Q F w = (w', RErr) -> fs w' = fs w /\ cur w' = cur w.
 Proof.
-  intros H. unfold apply in H. destruct (admit T Q w) eqn:Ea; [|inv H; auto].
-  destruct (apply_flow_spec _ _ _ _ _ _ H (admit_nodup _ _ _ Ea)) as (_ & _ & _ & P4 & _). auto.
+  intros H. unfold apply in H. destruct (admits T Q w) eqn:Ea; [|inv H; auto].
+  destruct (apply_flow_spec _ _ _ _ _ _ H (admits_nodup _ _ _ Ea)) as (_ & _ & _ & P4 & _). auto.
 Qed.
 
 Definition inadmissible (T : tarball) (w : world) : Prop :=
@@ -691,8 +691,8 @@ Definition inadmissible (T : tarball) (w : world) : Prop :=
 Lemma admission_before_mutation v T Q F w :
   inadmissible T w -> apply v T Q F w = (w, RErr).
 Proof.
-  intros H. unfold apply. assert (admit T Q w = false) as ->; [|reflexivity].
-  unfold admit. destruct H as [H|[H|[H|(pv & wf & Hp & H)]]].
+  intros H. unfold apply. assert (admits T Q w = false) as ->; [|reflexivity].
+  unfold admits. destruct H as [H|[H|[H|(pv & wf & Hp & H)]]].
   - rewrite H. now rewrite !andb_false_r.
   - rewrite H. now rewrite !andb_false_r.
   - rewrite H. reflexivity.
